@@ -54,6 +54,23 @@ const SOURCES: [&str; 18] = [
     "git-tag-rel#2",
 ];
 
+/// Sub-menu used for graphs with three dependency nodes (one representative of every source kind and
+/// every special form).
+const SOURCES_K3: [&str; 12] = [
+    "member",
+    "path-root-rootpkg",
+    "git-branch-master",
+    "git-tag-v1.0.0",
+    "git-rev-full",
+    "git-rev-short",
+    "git-branch-feat#1",
+    "git-branch-feat(x)",
+    "git-repoB-branch-master",
+    "ipfs-cidv0",
+    "registry-flat-1.0.0",
+    "registry-ns-fuel-1.0.0",
+];
+
 fn make_source(id: &str, pkg_name: &str) -> source::Pinned {
     match id {
         "member" => mk::member(),
@@ -178,12 +195,28 @@ enum Outcome {
 
 static NEXT_THREAD: AtomicUsize = AtomicUsize::new(0);
 thread_local! {
-    static LOCK_PATH: PathBuf = {
+    /// Per-thread Forc.lock, kept open: the text is written at offset 0 and the file is cut to length
+    /// (open(O_TRUNC) per case costs milliseconds on this file system).
+    static LOCK_FILE: (PathBuf, std::fs::File) = {
         let n = NEXT_THREAD.fetch_add(1, Ordering::Relaxed);
-        let d = vhcore::verif_root().join("work").join("C20").join(format!("t{n}"));
+        let d = vhcore::verif_root().join("work").join("C20").join("run").join(format!("t{n}"));
         std::fs::create_dir_all(&d).unwrap_or_else(|e| vhcore::machinery_failure(&format!("work dir: {e}")));
-        d.join("Forc.lock")
+        let p = d.join("Forc.lock");
+        let f = std::fs::OpenOptions::new().write(true).create(true).truncate(false).open(&p)
+            .unwrap_or_else(|e| vhcore::machinery_failure(&format!("cannot create {}: {e}", p.display())));
+        (p, f)
     };
+}
+
+/// Replace the content of this thread's Forc.lock by `text`; returns its path.
+fn write_lock_file(text: &str) -> PathBuf {
+    use std::os::unix::fs::FileExt;
+    LOCK_FILE.with(|(p, f)| {
+        if let Err(e) = f.write_all_at(text.as_bytes(), 0).and_then(|_| f.set_len(text.len() as u64)) {
+            vhcore::machinery_failure(&format!("cannot write {}: {e}", p.display()));
+        }
+        p.clone()
+    })
 }
 
 fn rev_canon(p: &Pinned) -> Pinned {
@@ -291,7 +324,9 @@ fn lock_text(g: &Graph) -> Result<String, String> {
     toml::ser::to_string_pretty(&lock).map_err(|e| e.to_string())
 }
 
-fn round_trip(nodes: &[Pinned], edges: &[(usize, usize, String, usize)]) -> Trip {
+/// `via_file`: write the text to a real Forc.lock and load it with `Lock::from_path`; otherwise parse
+/// the text with `toml::de::from_str::<Lock>`, which is all `from_path` does after reading the file.
+fn round_trip(nodes: &[Pinned], edges: &[(usize, usize, String, usize)], via_file: bool) -> Trip {
     let mut trips = 0u64;
     let mut text_out = None;
     let r = vhcore::catch(std::panic::AssertUnwindSafe(|| -> Outcome {
@@ -301,14 +336,16 @@ fn round_trip(nodes: &[Pinned], edges: &[(usize, usize, String, usize)]) -> Trip
             Err(e) => return Outcome::SerErr(e),
         };
         text_out = Some(text1.clone());
-        let path = LOCK_PATH.with(|p| p.clone());
-        if let Err(e) = std::fs::write(&path, &text1) {
-            vhcore::machinery_failure(&format!("cannot write {}: {e}", path.display()));
-        }
         trips += 1;
-        let lock2 = match Lock::from_path(&path) {
+        let loaded = if via_file {
+            let path = write_lock_file(&text1);
+            Lock::from_path(&path).map_err(|e| e.to_string())
+        } else {
+            toml::de::from_str::<Lock>(&text1).map_err(|e| format!("failed to parse lock file: {e}"))
+        };
+        let lock2 = match loaded {
             Ok(l) => l,
-            Err(e) => return Outcome::LoadErr { stage: "from_path", msg: e.to_string() },
+            Err(msg) => return Outcome::LoadErr { stage: "from_path", msg },
         };
         let g2 = match lock2.to_graph() {
             Ok(g) => g,
@@ -530,6 +567,7 @@ struct Acc {
     bad: Vec<(String, String, Value)>,
     bad_keys: BTreeSet<String>,
     bad_counts: BTreeMap<String, u64>,
+    via_file: u64,
     text_hashes: vhcore::Distinct,
     samples: Vec<Value>,
 }
@@ -542,6 +580,7 @@ impl Acc {
         self.trips += o.trips;
         self.nontrivial += o.nontrivial;
         self.passed += o.passed;
+        self.via_file += o.via_file;
         for (k, v) in o.outcome_classes {
             *self.outcome_classes.entry(k).or_default() += v;
         }
@@ -572,11 +611,28 @@ impl Acc {
             .iter()
             .map(|l| labels.iter().filter(|m| m.0 == l.0).count() > 1)
             .collect();
+        // Base attribute of an edge: (package name, library) — or (alias, library) when an earlier
+        // out-edge of the same node already uses that package name (a parent that depends on two
+        // same-named packages has to rename one of them). Configuration value 0 = base, 1..=11 = the
+        // other eleven options in menu order.
+        let base: Vec<usize> = shape
+            .iter()
+            .enumerate()
+            .map(|(i, &(a, b))| {
+                let clash = shape[..i].iter().any(|&(a2, b2)| a2 == a && labels[b2].0 == labels[b].0);
+                if clash { 4 } else { 0 }
+            })
+            .collect();
         for cfg in attr_configs(shape.len(), mode) {
             self.generated += 1;
+            let attrs: Vec<usize> = cfg
+                .iter()
+                .zip(&base)
+                .map(|(&c, &b)| if c == 0 { b } else if c - 1 < b { c - 1 } else { c })
+                .collect();
             let edges: Vec<(usize, usize, String, usize)> = shape
                 .iter()
-                .zip(&cfg)
+                .zip(&attrs)
                 .map(|(&(a, b), &at)| (a, b, dep_name(labels, b, RENAMES[at / 4]), at % 4))
                 .collect();
             // a manifest cannot declare the same dependency name twice
@@ -594,7 +650,11 @@ impl Acc {
             if edges.iter().any(|(_, b, n, ki)| name_shared[*b] || *n != labels[*b].0 || *ki >= 2) {
                 self.nontrivial += 1;
             }
-            let t = round_trip(pinned, &edges);
+            // single-dependency families and the base configuration of every (labels, shape) go
+            // through a real file + Lock::from_path; the rest parses the same text in memory
+            let via_file = track_text || cfg.iter().all(|&a| a == 0);
+            self.via_file += u64::from(via_file);
+            let t = round_trip(pinned, &edges, via_file);
             self.trips += t.trips;
             if track_text {
                 if let Some(tx) = &t.text {
@@ -605,7 +665,7 @@ impl Acc {
                 None => {
                     self.passed += 1;
                     *self.outcome_classes.entry("pass".into()).or_default() += 1;
-                    if self.samples.len() < 1 && edges.len() >= 2 && cfg.iter().any(|&a| a >= 6) {
+                    if self.samples.len() < 1 && edges.len() >= 2 && attrs.iter().any(|&a| a >= 6) {
                         let spec = Spec { nodes: labels.to_vec(), edges: edges.clone() };
                         self.samples.push(json!({"graph": spec.to_json(), "forc_lock": t.text, "result": "round-trips"}));
                     }
@@ -639,7 +699,7 @@ fn pin(l: &(String, String)) -> Pinned {
 
 fn run(a: &Args) -> i32 {
     let mut rep = Reporter::from_args(a, "model_checking");
-    vhcore::work_dir("C20");
+    vhcore::work_dir("C20/run");
 
     // sanity of the menus (machinery, not verdicts)
     for n in NAMES.iter().chain(ROOT_NAMES.iter()).chain(ADVERSARIAL.iter()) {
@@ -683,12 +743,16 @@ fn run(a: &Args) -> i32 {
             (2, Tier::Thorough) => AttrMode::All,
             _ => AttrMode::Single,
         };
-        // ordered k-tuples of distinct labels
+        // ordered k-tuples of distinct labels (k = 3: labels over the 12-source sub-menu)
+        let usable: Vec<usize> = (0..l)
+            .filter(|&i| k < 3 || SOURCES_K3.contains(&labels[i].1.as_str()))
+            .collect();
+        let l = usable.len();
         let mut tuples: Vec<Vec<usize>> = vec![vec![]];
         for _ in 0..k {
             let mut next = vec![];
             for t in &tuples {
-                for i in 0..l {
+                for &i in &usable {
                     if !t.contains(&i) {
                         let mut u = t.clone();
                         u.push(i);
@@ -802,6 +866,7 @@ fn run(a: &Args) -> i32 {
     rep.set("generated", total.generated);
     rep.set("skipped_two_out_edges_with_same_dep_name", total.skipped_same_dep_name_twice);
     rep.set("passed", total.passed);
+    rep.set("cases_loaded_through_a_real_file_and_Lock_from_path", total.via_file);
     rep.set("outcome_classes", json!(total.outcome_classes));
     rep.set("distinct_lock_texts_in_single_dependency_families", total.text_hashes.len() as u64);
     rep.set(
@@ -810,9 +875,11 @@ fn run(a: &Args) -> i32 {
             "root": "one member package",
             "dependency_nodes": format!("1..={max_k}"),
             "labels": format!("{} = names {:?} x sources {:?}", l, NAMES, SOURCES),
+            "labels_for_three_dependency_nodes": format!("names {:?} x sources {:?}", NAMES, SOURCES_K3),
             "shapes": "every DAG on nodes 0..k with edges i->j (i<j) in which every node has an in-edge; labels are assigned as ordered tuples, so every labelled rooted DAG occurs",
             "edge_attributes": "dep name in {package name, alias<j>, name of another package} x kind in {library, contract salt 0, contract salt 00..01, contract salt ff..ff}",
             "attribute_variation": match a.tier { Tier::Quick => "k=1: all; k=2: base + every single edge + every pair of edges", Tier::Thorough => "k=1,2: every assignment; k=3: base + every single edge" },
+            "base_assignment": "every edge (package name, library), except that a second out-edge of one node to a same-named package is (alias, library)",
             "adversarial_names": format!("root name in {:?} x single dependency named {:?} x every source x every attribute", ROOT_NAMES, ADVERSARIAL),
         }),
     );
@@ -822,6 +889,7 @@ fn run(a: &Args) -> i32 {
     rep.assume("at most one edge per ordered node pair (fetch_deps and to_graph both use update_edge)");
     rep.assume("path_root of path sources is treated as an opaque id (the root member's id or a git package's id); it is not required to name an ancestor in the generated graph");
     rep.assume("git-rev-short and git-rev-full use different commit hashes, so two packages whose sources print identically never coexist");
+    rep.assume("Lock::from_path(p) == toml::de::from_str(read_to_string(p)); cases other than the single-dependency families and the base attribute configuration of every (labels, shape) skip the file and call toml::de::from_str::<Lock> on the text directly");
     rep.assume("Lock -> text uses toml::ser::to_string_pretty, the call BuildPlan::from_lock_and_manifests uses to write Forc.lock");
     rep.finish()
 }
@@ -830,7 +898,7 @@ fn replay(a: &Args) -> i32 {
     let Some(p) = &a.replay else {
         vhcore::machinery_failure("usage: replay C20 <path>")
     };
-    vhcore::work_dir("C20");
+    vhcore::work_dir("C20/run");
     let txt = std::fs::read_to_string(p)
         .unwrap_or_else(|e| vhcore::machinery_failure(&format!("cannot read {}: {e}", p.display())));
     let v: Value = serde_json::from_str(&txt)
@@ -841,7 +909,7 @@ fn replay(a: &Args) -> i32 {
     };
     let pins = spec.pinned_nodes();
     println!("graph: {}", spec.to_json());
-    let t = round_trip(&pins, &spec.edges);
+    let t = round_trip(&pins, &spec.edges, true);
     if let Some(tx) = &t.text {
         println!("--- Forc.lock written by Lock::from_graph ---\n{tx}---");
     }
